@@ -36,6 +36,7 @@ var c14Mods = [][2]string{
 	{"example.com/UPPER/Case", "v0.1.0"}, {"gopkg.in/yaml.v3", "v3.0.1"}, {"example.com/d", "v1.0.0-pre.1"}, {"example.com/e", "v0.0.0-20200101000000-abcdef123456"},
 	{"example.com/f", "v2.0.0+incompatible"}, {"rsc.io/Quote", "v1.5.2"}, {"example.com/g", "v1.0.1"}, {"example.com/h", "v1.0.2"},
 	{"example.com/i", "v0.0.0-20200214102310-6d5b0d4f3e5d"}, {"example.com/j", "v1.0.0-prod"}, {"example.com/k/v2", "v2.1.0-rc.m"}, {"example.com/l", "v1.0.1-go.mod"},
+	{"example.com/n", "v1.0.0-rc.1+build.5"}, {"example.com/o", "v2.0.0-pre+incompatible"},
 }
 
 var c14Private = [][2]string{{"corp.example.com/priv", "v1.0.0"}, {"corp.example.com/priv/sub", "v1.0.0"}, {"x.internal.example/tool", "v0.1.0"}, {"corp.example.com", "v1.0.0"}}
